@@ -1,6 +1,7 @@
 """C03: a matching round clears every executable pair and never fails (Engine M)."""
 from ._m import run_generic, replay_generic
 from ..monitors_m import C03Mon
+from ..common import Violation
 
 WIT = ["round_with_market_orders_on_both_sides", "round_with_market_orders_on_one_side",
        "round_clearing_several_pairs", "post_round_two_sided_book", "post_round_market_orders_facing",
@@ -15,9 +16,64 @@ def factory():
     return [C03Mon()]
 
 
+TICKS = [0.1, 0.01, 0.001, 0.00001, 0.5, 1.0, 3.0]
+
+
+def locked_cases(tier):
+    n = 400 if tier == "quick" else 2000
+    for tick in TICKS:
+        for base in (0, 30000000 if tick == 0.00001 else 0):
+            for k0 in range(1, n + 1, 50):
+                yield (tick, base, k0, min(n + 1, k0 + 50))
+
+
+def locked_fn(case, wit):
+    """for every grid level k: a buy submitted half a tick above and a sell half a tick below the level are both
+    accepted AT the level (bid == ask): a round must match them -- in continuous mode and after a batch build-up;
+    also bid one level above the ask, and a market order against a single limit order"""
+    from ..explore_m import World
+    tick, base, k0, k1 = case
+    for k in range(k0, k1):
+        lvl = base + k
+        for variant in ("cont", "batch", "cross1", "market"):
+            w = World("cont" if variant == "cont" else "free", factory(), tick=tick)
+            try:
+                if variant == "market":
+                    w.apply(("L", False, lvl * tick, 1, None))
+                    w.apply(("M", True, 1, None))
+                else:
+                    hi = (lvl + 0.5) * tick if variant != "cross1" else (lvl + 1.5) * tick
+                    w.apply(("L", True, hi, 1, None))
+                    w.apply(("L", False, (lvl - 0.5) * tick, 1, None))
+                if variant != "cont":
+                    w.apply(("X",))
+            except Violation as v:
+                raise Violation(v.monitor, v.msg.split(" | ")[0], "tick %r level %d (%s): %s" % (tick, lvl, variant, v.msg.split(" | ", 1)[-1]))
+            wit.merge(w.wit)
+            wit.inc("locked_book_levels")
+    return (tick, base)
+
+
 def run(tier, seed):
-    return run_generic("C03", tier, seed, factory, WIT, RULE)
+    res = run_generic("C03", tier, seed, factory, WIT, RULE)
+    from ..enum_f import run_grid
+    ev0, dn0 = res.coverage["evaluations"], res.coverage["distinct_nontrivial"]
+    run_grid(res, "locked_book_per_grid_level", list(locked_cases(tier)), locked_fn, seed)
+    res.coverage["evaluations"] = ev0 + res.coverage["witness_classes"].get("locked_book_levels", 0)
+    res.coverage["distinct_nontrivial"] = dn0
+    res.require_witness(["locked_book_levels"])
+    return res
 
 
 def replay(payload):
+    if payload.get("grid") == "locked_book_per_grid_level":
+        from ..common import Counter
+        try:
+            locked_fn(tuple(payload["case"]), Counter())
+        except Violation as v:
+            print("  ==> VIOLATION %s: %s" % (v.monitor, v.msg))
+            print("VIOLATION property=C03 replay=(this file)")
+            return 1
+        print("replay: no violation on this tree")
+        return 0
     return replay_generic(payload, factory)
